@@ -172,13 +172,16 @@ Py27Leaf(s, c) ==
       [] c.op = "add" -> LET s1 == Py26Leaf(s, c) IN IF c.kind \in Bad /\ s.ff THEN [s1 EXCEPT !.stop = TRUE] ELSE s1
       [] c.op = "setff" -> [s EXCEPT !.ff = c.b]
       [] OTHER -> Py26Leaf(s, c)
+\* what the extended double writes down: `reason or details`, `err or details`, `if details:` - a supplied-but-falsy
+\* reason / an empty details dict given to addSuccess are logged as "nothing" (a quirk of the recorder, not of the adapters)
+ExtLogged(kind, form) == IF form = "reason0" \/ (kind = "success" /\ form = "det0") THEN "none" ELSE form
 \* ExtendedTestResult overrides the outcome methods without the failfast check; its stopTest pops unguarded
 ExtLeaf(s, c) ==
     CASE c.op = "startTestRun" -> [AddLog(s, LeafEv(s, c, TRUE)) EXCEPT !.ok = TRUE, !.ctx = Root]
       [] c.op = "stopTestRun" -> AddLog(s, LeafEv(s, c, TRUE))
       [] c.op = "startTest" -> [AddLog(s, LeafEv(s, c, TRUE)) EXCEPT !.run = @ + 1, !.ctx = Push(@)]
       [] c.op = "stopTest" -> [AddLog(s, LeafEv(s, c, TRUE)) EXCEPT !.ctx = Pop(@)]
-      [] c.op = "add" -> [AddLog(s, LeafEv(s, c, TRUE)) EXCEPT !.ok = @ /\ c.kind \notin Bad]
+      [] c.op = "add" -> [AddLog(s, LeafEv(s, [c EXCEPT !.form = ExtLogged(c.kind, c.form)], TRUE)) EXCEPT !.ok = @ /\ c.kind \notin Bad]
       [] c.op = "tags" -> [AddLog(s, LeafEv(s, c, TRUE)) EXCEPT !.ctx = Change(@, c.n, c.g)]
       [] c.op \in {"time", "progress"} -> AddLog(s, LeafEv(s, c, TRUE))
       [] c.op = "stop" -> [s EXCEPT !.stop = TRUE]
@@ -197,8 +200,10 @@ StatusWord(kind) == CASE kind = "success" -> "success" [] kind = "uxsuccess" -> 
 \* details handed to the callback: the given dict, or one made from the exc_info / reason
 ByTestDetails(kind, form) ==
     CASE form \in {"det", "detr"} -> "details"
+      [] form = "det0" -> "details0"
       [] form = "exc" -> "tb"
       [] form = "reason" -> "reasondict"
+      [] form = "reason0" -> "reasondict0"
       [] OTHER -> None
 ByTestLeaf(s, c) ==
     CASE c.op = "startTest" ->
@@ -213,7 +218,7 @@ ByTestLeaf(s, c) ==
 StreamWord(kind) == CASE kind \in {"error", "failure"} -> "fail" [] kind = "xfail" -> "xfail"
                       [] kind = "skip" -> "skip" [] kind = "uxsuccess" -> "uxsuccess" [] kind = "success" -> "success"
 StreamPayload(form) == CASE form \in {"det", "detr"} -> "details" [] form = "exc" -> "tb"
-                         [] form = "reason" -> "reason" [] OTHER -> None
+                         [] form \in {"reason", "reason0"} -> "reason" [] OTHER -> None
 
 -----------------------------------------------------------------------------
 (* Getters (properties of the real classes), evaluated over the tree        *)
@@ -257,9 +262,14 @@ E2OStop(m, i) == IF Has(K(Kid(i)), "stop") THEN D(m, Kid(i), Call("stop")) ELSE 
 E2OFinally(m, i) == IF FFGet(m, i) THEN E2OStop(m, i) ELSE m
 
 \* the details= attempt and its TypeError fallback
-ExcForm(k, form) == IF form \in {"det", "detr"} /\ ~AcceptsDetails(k) THEN "synexc" ELSE form
-ReasonForm(k, form) == IF form \in {"det", "detr"} /\ ~AcceptsDetails(k) THEN "synreason" ELSE form
-PlainForm(k, form) == IF form \in {"det", "detr"} /\ ~AcceptsDetails(k) THEN "none" ELSE form
+\* forms: "exc" exc_info, "reason" / "reason0" a reason string (non-empty / the EMPTY string), "det" / "detr" / "det0" a details
+\* dict (without / with a 'reason' entry / EMPTY), "none" nothing.  Supplied-but-falsy arguments are still supplied.
+DetForms == {"det", "detr", "det0"}
+ExcForm(k, form) == IF form \in DetForms /\ ~AcceptsDetails(k) THEN "synexc" ELSE form
+\* the reason text made from an empty details dict is the empty string
+ReasonForm(k, form) == IF form \in {"det", "detr"} /\ ~AcceptsDetails(k) THEN "synreason"
+                       ELSE IF form = "det0" /\ ~AcceptsDetails(k) THEN "reason0" ELSE form
+PlainForm(k, form) == IF form \in DetForms /\ ~AcceptsDetails(k) THEN "none" ELSE form
 
 E2OAdd(m, i, c) ==
     LET j == Kid(i)
@@ -634,9 +644,10 @@ DeliveredStable == [][\A l \in LoggedNodes : \A y \in DOMAIN ns[l].log :
 \* C08 ---------------------------------------------------------------------
 \* the documented fixed degradation, by target flavour
 Degrade(f, kind, form) ==
-    LET exc == IF form \in {"det", "detr"} THEN "synexc" ELSE form
-        rsn == IF form \in {"det", "detr"} THEN "synreason" ELSE form IN
-    CASE f \in {"TT", "Text", "Ext"} -> <<kind, form>>
+    LET exc == IF form \in DetForms THEN "synexc" ELSE form
+        rsn == IF form \in {"det", "detr"} THEN "synreason" ELSE IF form = "det0" THEN "reason0" ELSE form IN
+    CASE f \in {"TT", "Text"} -> <<kind, form>>
+      [] f = "Ext" -> <<kind, ExtLogged(kind, form)>>
       [] kind = "success" -> <<"success", "none">>
       [] kind \in {"error", "failure"} -> <<kind, exc>>
       [] f = "Py26" /\ kind \in {"skip", "xfail"} -> <<"success", "none">>
